@@ -87,7 +87,7 @@ fn case_strategy(tier: Tier, ex: Excl) -> BoxedStrategy<Case> {
                 opt_w(if ex.conds { 0.0 } else { 0.5 }, prop::sample::select(vec!["done", "bad"])),
                 opt_w(if ex.limit { 0.0 } else { 0.3 }, 1u32..4),
             )
-                .prop_map(move |(preceded, a, b, limit)| SQ { preceded: preceded && !ex.preceded, a_cond: a.map(|s| s.to_string()), b_cond: b.map(|s| s.to_string()), limit });
+                .prop_map(move |(preceded, a, b, limit)| SQ { preceded, a_cond: a.map(|s| s.to_string()), b_cond: b.map(|s| s.to_string()), limit });
             (Just(cfg), Just(n_ctx), ops, tail, prop::collection::vec(q, 4..=tier.pick(10, 16)))
         })
         .prop_map(|(cfg, n_ctx, ops, tail, queries)| Case { cfg, n_ctx, ops, tail, queries })
@@ -208,6 +208,13 @@ fn run_case(c: &Case, rep: &mut CaseReport) -> Verdict {
                 return Verdict::fail("head-matched-twice", json!({"cmd": text, "heads": got_heads, "log": w.db.log}));
             }
             let dump = || json!(w.model.events.iter().map(|e| json!({"k": e.k - K_BASE, "ty": types[e.ty].name, "u": e.vals[0], "v": e.vals[1], "t": e.secs.map(|s| s - w.base_secs), "ctx": e.ctx})).collect::<Vec<_>>());
+            if q.preceded && ex.preceded {
+                // open finding: the PRECEDED BY sweep misses heads. Only the returned pairs are judged (each valid, no
+                // head twice, above); completeness, LIMIT and placement independence are excluded for this form.
+                rep.excluded_known += 1;
+                rep.label("preceded-by:validity-only");
+                continue;
+            }
             match q.limit {
                 None => {
                     if got_set != expected_heads {
